@@ -196,7 +196,7 @@ func c08Sem(r *h.Result, rng *h.Rng, n int) error {
 	var feats [][]string
 	for i := 0; i < n; i++ {
 		streams := genSemStreams(rng)
-		query := genMetricQuery(rng, mgen{simple: true, streams: streams})
+		query := genMetricQuery(rng, mgen{simple: true, streams: streams, extraFns: true})
 		script, err := logql_parser.Parse(query)
 		if err != nil {
 			r.Count("sem:parse-error")
